@@ -388,7 +388,7 @@ def one(rep, prog, cfg):
                           "the queue branch of select! binds %s instead of the Option returned by recv(): with a refutable pattern select! disables the branch "
                           "when the queue is closed (last client handle dropped) and the loop never ends — the transport is not released and the event stream never ends"
                           % (tys or "nothing"))
-    rep.floor("C08.error-flow", cfg + "/connection results with an error", n_err, 10)
+    rep.floor("C08.error-flow", cfg + "/connection results with an error", n_err, 7)
     # a clean close (receive -> Ok(None)) ends the loop: on that outcome nothing more is written or read and the function
     # returns Err(()) — a `Ok(None) => ()` that falls through would write the next request to a peer that is gone
     from ..cfg import VariantReach
